@@ -51,8 +51,8 @@ Lemma whole_value_typed_l def retrieve n ret o :
             decode_string_field v = Some (unescape o).
 Proof.
   intros Hn Hok He Hs Ho Hno.
-  exists (CExp (r_raw ret) (unescape o)). split; [|split; reflexivity].
-  now apply resolve_whole_typed.
+  exists (CExp (r_raw ret) (unescape o)). split; [now apply resolve_whole_typed|split; [|reflexivity]].
+  unfold sanitize. cbn [sanitize_gen]. destruct (r_raw ret); try discriminate; reflexivity.
 Qed.
 
 Lemma embedded_uses_text_l def retrieve s uri ret repl :
